@@ -178,7 +178,8 @@ fn remove_case<const N: usize>(rng: &mut Rng, rep: &mut Report, cfg: &GenCfg) {
     let expected = ref_remove(&m, k, |l, s, c, kids, keep| cells.push(format!("remove.cell.{}.{s}.{}.{}.{}", LEVELS[l], if c { "comment" } else { "-" }, if kids { "kids" } else { "-" }, if keep { "kept" } else { "removed" })));
     for c in &cells { rep.count(c); rep.seen("remove.cells", &c["remove.cell.".len()..]); }
     if ref_remove(&expected, k, |_, _, _, _, _| {}) != expected { eprintln!("HARNESS-ERROR C10 reference filter is not idempotent"); std::process::exit(3); }
-    let q = maps::to_quill::<N, ()>(&m, &mut Ins::Shuffle(&mut rng.fork())).expect("expressible");
+    let mut q = maps::to_quill::<N, ()>(&m, &mut Ins::Shuffle(&mut rng.fork())).expect("expressible");
+    if rng.chance(1, 3) { q.javadoc = Some(quill::tree::mappings::JavadocMapping("comment of the set\nitself".into())); rep.count("remove.set_level_comment.present"); }
     let input = || json!({"set": m.render(), "namespace": ns});
     let r1 = match guard(|| q.clone().remove_dummy(&ns).map_err(|e| format!("{e:#}"))) {
         Err(p) => { rep.violation(format!("C10 panic {}", p.site()), json!({"panic": p.message, "input": input()})); return; }
@@ -186,6 +187,7 @@ fn remove_case<const N: usize>(rng: &mut Rng, rep: &mut Report, cfg: &GenCfg) {
         Ok(Ok(r)) => r,
     };
     maps::watch(rep, "C10", "remove_dummy", &r1, input);
+    if r1.javadoc.as_ref().map(|j| &j.0) != q.javadoc.as_ref().map(|j| &j.0) { rep.violation("C10 remove_dummy: comment of the mapping set itself changed", json!({"input": input()})); }
     let o1 = maps::from_quill(&r1);
     for (sig, w) in judge_remove(&expected, &o1) { rep.violation(sig, json!({"where": w, "input": input(), "expected": expected.render(), "observed": o1.render()})); }
     match guard(|| r1.clone().remove_dummy(&ns).map_err(|e| format!("{e:#}"))) {
